@@ -10,14 +10,14 @@ from ref import rfc9171, bpsec_cose
 
 ID = 'C16'
 LEVEL = 'fault_enumeration'
-RULE = ('per case one confidentiality configuration (COSE_Encrypt0 with A128GCM or A256GCM and a direct key, IV from the plan; one target (payload) or two targets (payload + extension block) per block; plaintexts of '
+RULE = ('per case one confidentiality configuration (COSE_Encrypt0 with A128GCM or A256GCM and a direct key, IV from the plan; one target (payload) or two targets (payload + extension block) per block; or two confidentiality blocks of a foreign source over different targets with different keys, in either block order; plaintexts of '
         'length 0, 1, 7, 8, 9, 40, 300; acceptance on or off) applied by the real source node, or a foreign source built by '
         'ref/bpsec_cose.py; on the wire the target data must be ciphertext of length plaintext+16 that the independent AES-GCM / AAD '
         'construction decrypts to the plaintext; alterations as in C03 (every single-bit flip in a drawn window with CRC fix-up, field '
         'rewrites of primary fields, target metadata, security source, scope, IV, ciphertext, tag; wrong / missing key). One evaluation = '
         'one altered reception; distinct = (configuration digest, alteration).')
 COMPONENTS = bc.COMPONENTS
-PROBES = ('class.covered', 'class.other', 'kind.enc0', 'kind.two_targets', 'kind.foreign', 'alt.bitflip', 'alt.field', 'alt.wrong-key', 'alt.missing-key', 'cov.primary',
+PROBES = ('class.covered', 'class.other', 'kind.enc0', 'kind.two_targets', 'kind.two_bcb', 'kind.foreign', 'alt.bitflip', 'alt.field', 'alt.wrong-key', 'alt.missing-key', 'cov.primary',
           'cov.target-btsd', 'cov.target-meta', 'cov.source', 'cov.scope', 'cov.iv', 'wire.no_plaintext_window', 'plain.empty', 'accept.on', 'accept.off')
 ASSUMPTIONS = ['plaintext recovery is checked with acceptance enabled; with acceptance off a verified bundle is delivered still encrypted, which the statement allows',
                'COSE_Encrypt with wrapped content keys needs the pycose fork pinned in pyproject.toml and is not exercised (see C03)']
@@ -26,7 +26,13 @@ BUDGET = {'quick': 40, 'thorough': 600}
 
 
 def gen(ch, tier):
-    kind = ch.choice('kind', ('enc0-128', 'enc0-256', 'foreign', 'enc0-256'))
+    kind = ch.choice('kind', ('enc0-128', 'enc0-256', 'foreign', 'enc0-256', 'two-bcb'))
+    if kind == 'two-bcb':
+        # two confidentiality blocks of a foreign source, each over its own target and with its own key
+        return dict(scenario='bpsec_bcb', kind=kind, plen=ch.choice('plen', (1, 8, 40)), others=ch.weighted('others', (2, 3, 1)),
+                    pri_crc=ch.choice('pc', (0, 0, 2, 1)), blk_crc=ch.choice('bc', (0, 0, 1, 2)), accept=ch.coin('accept', 2, 3), dst_key='right',
+                    order=ch.choice('order', ('payload-first', 'ext-first')), scope=ch.choice('scope', ([[0, 1], [-1, 1]], [[0, 1], [-1, 1], [-2, 1]], [[-1, 1]])),
+                    window=0, wsize=0, falg=1, tgt_ext=False, fixup=True)
     return dict(scenario='bpsec_bcb', kind=kind, plen=ch.choice('plen', (0, 1, 7, 8, 9, 40, 300)), others=ch.weighted('others', (2, 3, 1)),
                 pri_crc=ch.choice('pc', (0, 0, 2, 1)), blk_crc=ch.choice('bc', (0, 0, 1, 2)), window=ch.pick('window', 1 << 16),
                 wsize=24 if tier == 'quick' else 96, accept=ch.coin('accept', 2, 3), dst_key=ch.choice('dstkey', ('right', 'right', 'right', 'wrong', 'missing')),
@@ -192,7 +198,75 @@ def field_alterations(orig):
     return alts
 
 
+EXT_PLAIN = b'\x4cSECOND-TARGET'
+
+
+def make_two(plan, index):
+    ''' Reference-built bundle with two confidentiality blocks: one over the payload (key enc128), one over an extension block (key enc256). '''
+    seqno = C03.seq_code(index)
+    plain = plaintext(plan, index)
+    pri = dict(flags=0, crc_type=plan['pri_crc'], destination='dtn://d/app', source='dtn://s/', report_to='dtn:none',
+               create_time=820000000000, seqno=seqno, lifetime=3600000)
+    scope = {key: val for (key, val) in plan['scope']}
+    others = [dict(type=193, num=5 + ix, flags=ix & 1, crc_type=plan['blk_crc'], btsd=b'\x44OTH' + bytes([0x30 + ix])) for ix in range(plan['others'])]
+    (bcb_a, enc_pay) = bpsec_cose.make_bcb(pri, dict(type=1, num=1, flags=0, crc_type=plan['blk_crc'], btsd=plain), sc.RAW_KEYS[b'enc128'], b'enc128', 2,
+                                           _iv(seqno), alg=1, scope=scope, crc_type=plan['blk_crc'])
+    (bcb_b, enc_ext) = bpsec_cose.make_bcb(pri, dict(type=192, num=4, flags=0, crc_type=plan['blk_crc'], btsd=EXT_PLAIN), sc.RAW_KEYS[b'enc256'], b'enc256', 3,
+                                           b'XV' + _iv(seqno)[2:], alg=3, scope=scope, crc_type=plan['blk_crc'])
+    secs = [bcb_a, bcb_b] if plan['order'] == 'payload-first' else [bcb_b, bcb_a]
+    return rfc9171.encode_bundle(pri, secs + [enc_ext] + others + [enc_pay])
+
+
+def _drive_two(run, plan, har):
+    stats = run.stats
+    cfg = bc.digest({key: plan[key] for key in ('kind', 'plen', 'others', 'pri_crc', 'blk_crc', 'accept', 'order', 'scope')})
+    stats['kind.two_bcb'] = 1
+    stats['accept.' + ('on' if plan['accept'] else 'off')] = 1
+    cases = [('unmodified', None), ('payload-cipher', 1), ('ext-cipher', 4), ('payload-tag', 1), ('ext-tag', 4)]
+    for (index, (name, tnum)) in enumerate(cases):
+        copy = make_two(plan, index)
+        plain = plaintext(plan, index)
+        orig = rfc9171.decode_bundle(copy)
+        if tnum is not None:
+            tgt = [blk for blk in orig['blocks'] if blk['num'] == tnum][0]
+            if name.endswith('cipher'):
+                new = bytes([tgt['btsd'][0] ^ 1]) + tgt['btsd'][1:]
+            else:
+                new = tgt['btsd'][:-1] + bytes([tgt['btsd'][-1] ^ 0x80])
+            copy = rfc9171.reencode(orig, {}, {tnum: dict(btsd=new)})
+            stats['alt.field'] = stats.get('alt.field', 0) + 1
+            stats['class.covered'] = stats.get('class.covered', 0) + 1
+            stats['cov.target-btsd'] = stats.get('cov.target-btsd', 0) + 1
+        stats['evals'] += 1
+        run.keys.append((cfg, name))
+        (rec, dels, _outs) = sc.deliver(har, copy)
+        where = '%s, two confidentiality blocks (%s), accept %s' % (name, plan['order'], plan['accept'])
+        if tnum is None:
+            if len(dels) != 1:
+                run.viols.append(('unmodified', 'not-delivered-two-bcb', 'an unmodified bundle with two confidentiality blocks was not delivered (actions %s reason %s error %s)' % (
+                    rec['actions'], rec['reason'], rec['error'])))
+                return
+            if plan['accept'] and dels[0]['payload'] != plain:
+                run.viols.append(('unmodified', 'wrong-plaintext-two-bcb', 'accepted bundle delivered %d octets that differ from the %d-octet plaintext' % (len(dels[0]['payload']), len(plain))))
+                return
+            if plan['accept']:
+                ext = [blk for blk in dels[0].get('blocks', []) if blk[0] == 192]
+                if ext and ext[0][2] != EXT_PLAIN:
+                    run.viols.append(('unmodified', 'second-target-not-decrypted', 'the extension block protected by the second confidentiality block was handed over still encrypted'))
+                    return
+        else:
+            if dels:
+                leaked = dels[0]['payload'] == plain
+                run.viols.append(('covered', ('plaintext-released:' if leaked else 'delivered:') + 'cov.target-btsd/two-bcb', 'delivered although a ciphertext was altered (%s)' % where))
+                return
+            if rec['error'] is None and ('delete' not in (rec['actions'] or []) or rec['reason'] not in (12, 13, 14, 15, 16)):
+                run.viols.append(('covered', 'no-security-failure:two-bcb', 'not delivered but no security failure recorded: actions %s reason %s (%s)' % (rec['actions'], rec['reason'], where)))
+                return
+
+
 def _drive(run, plan, har):
+    if plan['kind'] == 'two-bcb':
+        return _drive_two(run, plan, har)
     stats = run.stats
     cfg = bc.digest({key: plan[key] for key in ('kind', 'plen', 'others', 'pri_crc', 'blk_crc', 'dst_key', 'accept', 'falg', 'scope', 'tgt_ext')})
     stats['kind.' + ('foreign' if plan['kind'] == 'foreign' else 'enc0')] = 1
